@@ -33,7 +33,8 @@ MUTANTS = [
      "func (c *noneBlockCrypt) Decrypt(dst, src []byte) {\n\tif len(src) == 0 {\n\t\treturn\n\t}\n\tif &dst[0] == &src[0] {", 0),
     ("aead-capacity-check-removed", "if dst == nil || cap(dst)-len(dst) < len(plaintext)+a.aead.Overhead() {", "if dst == nil {", 0),
     ("aead-capacity-off-by-overhead", "cap(dst)-len(dst) < len(plaintext)+a.aead.Overhead()", "cap(dst)-len(dst) < len(plaintext)", 0),
-    ("blockcrypt-shared-mutex-removed", "\tc.decMu.Lock()\n\tdecrypt(c.block, dst, src, c.decbuf)\n\tc.decMu.Unlock()", "\tdecrypt(c.block, dst, src, c.decbuf)", 0),
+    ("sm4-dec-own-cipher-reverted", "decrypt(c.decBlock, dst, src, c.decbuf)", "decrypt(c.block, dst, src, c.decbuf)", 0),
+    ("blockcrypt-shared-mutex-removed", "\tc.decMu.Lock()\n\tdecrypt(c.decBlock, dst, src, c.decbuf)\n\tc.decMu.Unlock()", "\tdecrypt(c.decBlock, dst, src, c.decbuf)", 0),
 ]
 
 
